@@ -47,6 +47,8 @@ def tname(t):
         return "((%s) -> %s)" % (", ".join(tname(x) for x in t[1]), tname(t[2]))
     if k == "gen":
         return "Generator(%s)" % tname(t[1])
+    if k == "tup":
+        return "(%s)" % ", ".join(tname(x) for x in t[1])
     raise ValueError(t)
 
 
@@ -83,6 +85,8 @@ class Renderer(object):
                 return
             if e == "asg":
                 acc.add(x["x"])
+            if e == "masg":
+                acc.update(x["xs"])
             if e == "let":
                 declared.add(x["x"])
             if e in ("for", "forin"):
@@ -255,6 +259,10 @@ class Renderer(object):
             return "(try %s catch E in { %s; true => throw E; never }%s)" % (self.ex(x["body"]), hs, fin)
         if e == "error":
             return "error %s" % esc(x.get("msg", "halt"))
+        if e == "tuple":
+            return "(%s)" % ", ".join(self.ex(a) for a in x["args"])
+        if e == "masg":
+            return "(%s) := %s" % (", ".join(x["xs"]), self.ex(x["v"]))
         if e == "assert":
             return "assert(%s)" % self.ex(x["c"])
         raise ValueError(e)
@@ -317,6 +325,9 @@ class Renderer(object):
                     for a in t[1]:
                         wt(a)
                     wt(t[2])
+                elif t and t[0] == "tup":
+                    for a in t[1]:
+                        wt(a)
 
         def walk(x):
             if isinstance(x, dict):
@@ -417,6 +428,10 @@ def _fun_refs(body, bound):
             if e == "asg":
                 if x["x"] not in bnd:
                     free.add(x["x"])
+                walk(x["v"], bnd)
+                return
+            if e == "masg":
+                free.update(v for v in x["xs"] if v not in bnd)
                 walk(x["v"], bnd)
                 return
             if e == "call":
